@@ -22,7 +22,8 @@ pub enum Val {
     F64(u64),
     Bool(bool),
     Struct(Vec<Val>),
-    Enum(i64),
+    /// (variant name, discriminant)
+    Enum(String, i64),
     Op(u32),
     Some(Box<Val>),
     None,
@@ -42,7 +43,7 @@ impl Val {
             Val::F64(b) => format!("d{b:016x}"),
             Val::Bool(b) => b.to_string(),
             Val::Struct(fs) => format!("{{{}}}", fs.iter().map(|f| f.show()).collect::<Vec<_>>().join(",")),
-            Val::Enum(d) => format!("e{d}"),
+            Val::Enum(n, _) => format!("e{n}"),
             Val::Op(t) => format!("op({t})"),
             Val::Some(v) => format!("some({})", v.show()),
             Val::None => "none".into(),
@@ -56,6 +57,21 @@ impl Val {
 }
 
 pub type Env = BTreeMap<String, Def>;
+
+/// `(name, discriminant)` of every variant; a variant is written `Name` or `Name = N` (rustc's rule: explicit, else previous + 1)
+pub fn enum_discs(variants: &[String]) -> Vec<(String, i64)> {
+    let mut out = vec![];
+    let mut next = 0i64;
+    for v in variants {
+        let (name, d) = match v.split_once('=') {
+            Some((n, d)) => (n.trim().to_string(), d.trim().parse::<i64>().unwrap_or(next)),
+            None => (v.trim().to_string(), next),
+        };
+        out.push((name, d));
+        next = d + 1;
+    }
+    out
+}
 
 pub fn env_of(m: &Module) -> Env {
     m.types.iter().map(|t| (t.name.clone(), t.def.clone())).collect()
@@ -115,7 +131,7 @@ pub fn gen_val(env: &Env, ty: &Ty, rng: &mut Rng) -> Val {
         Ty::Prim(p) => prim_val(*p, rng),
         Ty::Named(n) => match env.get(n) {
             Some(Def::Struct { fields, .. }) => Val::Struct(fields.iter().map(|(_, t)| gen_val(env, t, rng)).collect()),
-            Some(Def::Enum { variants }) => Val::Enum(rng.below(variants.len()) as i64),
+            Some(Def::Enum { variants }) => { let ds = enum_discs(variants); let (n, d) = ds[rng.below(ds.len())].clone(); Val::Enum(n, d) }
             _ => Val::Op(1 + rng.below(900) as u32),
         },
         Ty::Ref(_, _, _) | Ty::Box(_) => Val::Op(1 + rng.below(900) as u32),
@@ -205,10 +221,7 @@ pub fn rust_expr(env: &Env, ty: &Ty, v: &Val) -> String {
             let Some(Def::Struct { fields, .. }) = env.get(n) else { panic!("no struct {n}") };
             format!("{n} {{ {} }}", fields.iter().zip(vs).map(|((f, t), v)| format!("{f}: {}", rust_expr(env, t, v))).collect::<Vec<_>>().join(", "))
         }
-        (Ty::Named(n), Val::Enum(d)) => {
-            let Some(Def::Enum { variants }) = env.get(n) else { panic!("no enum {n}") };
-            format!("{n}::{}", variants[*d as usize])
-        }
+        (Ty::Named(n), Val::Enum(v, _)) => format!("{n}::{v}"),
         (Ty::Ref(_, _, t), Val::Op(tag)) => format!("&*Box::leak(Box::new({} {{ tag: {tag} }}))", t.rust()),
         (Ty::Box(t), Val::Op(tag)) => format!("Box::new({} {{ tag: {tag} }})", t.rust()),
         (Ty::Opt(t, sd), v) => {
@@ -321,8 +334,13 @@ fn rust_method(env: &Env, abi: &str, m: &Method, scripts: &[Script], plain: bool
     }
     body += &format!("            crate::vlog(\"{abi}\", &s);\n");
     if let Some((w, _)) = m.params.iter().find(|(_, t)| *t == Ty::Write) {
-        body += &format!("            let _ = core::fmt::Write::write_str({w}, match crate::salt() {{ {} }});\n",
-            scripts.iter().enumerate().map(|(si, sc)| format!("{} => {:?}", if si + 1 == scripts.len() { "_".to_string() } else { si.to_string() }, String::from_utf8_lossy(&sc.written))).collect::<Vec<_>>().join(", "));
+        // written in two pieces, so that a growable buffer grows while non-empty
+        body += &format!("            let (wa, wb): (&str, &str) = match crate::salt() {{ {} }};\n            let _ = core::fmt::Write::write_fmt({w}, format_args!(\"{{}}{{}}\", wa, wb));\n",
+            scripts.iter().enumerate().map(|(si, sc)| {
+                let t = String::from_utf8_lossy(&sc.written).to_string();
+                let cut = t.char_indices().nth(3).map(|(i, _)| i).unwrap_or(0);
+                format!("{} => ({:?}, {:?})", if si + 1 == scripts.len() { "_".to_string() } else { si.to_string() }, &t[..cut], &t[cut..])
+            }).collect::<Vec<_>>().join(", "));
     }
     if let Some(rt) = &m.ret {
         body += "            match crate::salt() {\n";
@@ -347,7 +365,7 @@ pub fn abi_name(prefix: &str, ty: &str, m: &str) -> String {
 }
 
 /// make the module fit for the end-to-end run: F22 shapes avoided, helper methods on opaques
-pub fn prepare(m: &mut Module) {
+pub fn prepare(m: &mut Module, rng: &mut Rng) {
     fn fix(t: &mut Ty) {
         match t {
             Ty::Opt(inner, sd) => {
@@ -364,6 +382,11 @@ pub fn prepare(m: &mut Module) {
         }
     }
     for t in &mut m.types {
+        if let Def::Enum { variants } = &mut t.def {
+            // explicit, negative, gapped and implicit-after-explicit discriminants
+            let shapes: [&[&str]; 6] = [&["Va", "Vb"], &["Va = 3", "Vb"], &["Va", "Vb = 404", "Vc"], &["Va = -2", "Vb = 7"], &["Va = 1", "Vb", "Vc = 100", "Vd"], &["Va = 2147483646", "Vb"]];
+            *variants = rng.pick(&shapes).iter().map(|s| s.to_string()).collect();
+        }
         if let Def::Struct { fields, .. } = &mut t.def {
             for (_, f) in fields {
                 fix(f);
@@ -386,7 +409,7 @@ pub fn prepare(m: &mut Module) {
 }
 
 pub fn make_case(mut module: Module, k: usize, rng: &mut Rng) -> Case {
-    prepare(&mut module);
+    prepare(&mut module, rng);
     let env = env_of(&module);
     let mut scripts = BTreeMap::new();
     for t in &module.types {
@@ -435,7 +458,8 @@ impl Case {
                 }
                 Def::Enum { variants } => {
                     s += &format!("    pub enum {} {{ {} }}\n", t.name, variants.join(", "));
-                    impls += &format!("impl crate::VShow for ffi::{} {{ fn vshow(&self, o: &mut String) {{ o.push_str(&format!(\"e{{}}\", *self as i64)); }} }}\n", t.name);
+                    let arms: String = enum_discs(variants).iter().map(|(v, _)| format!("ffi::{}::{v} => \"e{v}\", ", t.name)).collect();
+                    impls += &format!("impl crate::VShow for ffi::{} {{ fn vshow(&self, o: &mut String) {{ o.push_str(match self {{ {arms} }}); }} }}\n", t.name);
                     layouts += &format!("    println!(\"layout {} {{}} {{}}\", core::mem::size_of::<ffi::{}>(), core::mem::align_of::<ffi::{}>());\n", t.name, t.name, t.name);
                 }
             }
@@ -597,7 +621,7 @@ impl<'a> CGen<'a> {
                 let fields = fields.clone();
                 format!("{{ {} }}", fields.iter().zip(vs).map(|((_, t), v)| self.init(t, v, None)).collect::<Vec<_>>().join(", "))
             }
-            (Ty::Named(_), Val::Enum(d)) => d.to_string(),
+            (Ty::Named(n), Val::Enum(v, _)) => format!("{n}_{v}"),
             (Ty::Ref(..), Val::Op(tag)) | (Ty::Box(_), Val::Op(tag)) => {
                 let n = self.opaque_name(ty);
                 let t = self.fresh("op");
@@ -656,7 +680,10 @@ impl<'a> CGen<'a> {
                     let parts: Vec<String> = fields.iter().map(|(f, t)| self.show(t, &format!("({e}).{f}"))).collect();
                     format!("printf(\"{{\"); {} printf(\"}}\");", parts.join(" printf(\",\"); "))
                 }
-                Some(Def::Enum { .. }) => format!("printf(\"e%d\", (int)({e}));"),
+                Some(Def::Enum { variants }) => {
+                    let chain: String = enum_discs(&variants).iter().map(|(v, _)| format!("({e}) == {n}_{v} ? \"e{v}\" : ")).collect();
+                    format!("printf(\"%s\", {chain}\"e?\");")
+                }
                 _ => panic!("opaque by value"),
             },
             Ty::Ref(..) | Ty::Box(_) => {
@@ -753,6 +780,35 @@ pub fn declared_param_types(header: &str, abi: &str) -> Option<Vec<String>> {
     )
 }
 
+/// functions whose return type is a per-method `{abi}_result` struct
+pub fn result_struct_fns(case: &Case) -> Vec<String> {
+    let mut v = vec![];
+    for t in &case.module.types {
+        for m in &t.methods {
+            let is_rs = match &m.ret {
+                Some(Ty::Res(..)) => true,
+                Some(Ty::Opt(inner, _)) => !is_pointer(inner),
+                _ => false,
+            };
+            if is_rs { v.push(abi_name(&case.prefix, &t.name, &m.name)); }
+        }
+    }
+    v
+}
+
+/// a C++ translation unit that includes the C headers and prints the size and flag offset of every result struct:
+/// the header must mean the same to a C++ compiler as to a C compiler
+pub fn cpp_layout_probe(case: &Case) -> String {
+    let mut s = String::from("#include <cstdio>\n#include <cstddef>\nextern \"C\" {\n");
+    for t in &case.module.types { s += &format!("#include \"{}.h\"\n", t.name); }
+    s += "}\nint main() {\n";
+    for abi in result_struct_fns(case) {
+        s += &format!("  std::printf(\"rs {abi} %zu %zu\\n\", sizeof({abi}_result), offsetof({abi}_result, is_ok));\n");
+    }
+    s += "  return 0;\n}\n";
+    s
+}
+
 pub struct Expected {
     pub lines: Vec<String>,
 }
@@ -779,6 +835,9 @@ pub fn c_driver(case: &Case, headers: &BTreeMap<String, String>) -> Result<(Stri
             _ => {}
         }
     }
+    for abi in result_struct_fns(case) {
+        body += &format!("  printf(\"rs {abi} %zu %zu\\n\", sizeof({abi}_result), offsetof({abi}_result, is_ok));\n");
+    }
     body += &format!("  printf(\"--\\n\");\n  {}vlayouts();\n  printf(\"--\\n\");\n", case.prefix);
     for t in &case.module.types {
         let header = headers.get(&format!("{}.h", t.name)).ok_or_else(|| format!("no header {}.h", t.name))?;
@@ -795,6 +854,7 @@ pub fn c_driver(case: &Case, headers: &BTreeMap<String, String>) -> Result<(Stri
                 let mut pi = 0;
                 let mut write_var = None;
                 let mut cb_lines = vec![];
+                let mut cb_destroy: Vec<String> = vec![];
                 if let Some(sp) = &m.self_param {
                     let sv = sc.self_val.clone().unwrap();
                     let sty = if sp.by_ref { Ty::Ref(Lt::Anon, sp.mutable, Box::new(Ty::Named(t.name.clone()))) } else { Ty::Named(t.name.clone()) };
@@ -809,8 +869,14 @@ pub fn c_driver(case: &Case, headers: &BTreeMap<String, String>) -> Result<(Stri
                     let cty = ptys.get(pi).ok_or_else(|| format!("prototype of {abi} has fewer parameters than the method"))?;
                     match pty {
                         Ty::Write => {
-                            decls += &format!("  DiplomatWrite* a{pi} = diplomat_buffer_write_create(0);\n");
-                            write_var = Some(format!("a{pi}"));
+                            if salt == 1 {
+                                // a caller-owned buffer that fits exactly (text + NUL)
+                                decls += &format!("  char wb{pi}[{}]; DiplomatWrite ws{pi} = diplomat_simple_write(wb{pi}, sizeof(wb{pi})); DiplomatWrite* a{pi} = &ws{pi};\n", sc.written.len() + 1);
+                                write_var = Some(format!("=a{pi}"));
+                            } else {
+                                decls += &format!("  DiplomatWrite* a{pi} = diplomat_buffer_write_create({});\n", if salt == 2 { 3 } else { 0 });
+                                write_var = Some(format!("a{pi}"));
+                            }
                         }
                         Ty::Fn(ps, r) => {
                             let Val::Cb(cargs, cret) = v else { panic!() };
@@ -833,8 +899,12 @@ pub fn c_driver(case: &Case, headers: &BTreeMap<String, String>) -> Result<(Stri
                                 f += &format!("  CBRET_{abi}_{n} r = {init};\n  return r;\n");
                             }
                             f += "}\n";
+                            if salt == 0 {
+                                f += &format!("static void cbd_{abi}_{n}(const void* data) {{ printf(\"cb-destroy {abi}.{n}\\n\"); }}\n");
+                            }
                             callbacks += &f;
-                            decls += &format!("  {cty} a{pi} = {{ 0, (void*){fname}, 0 }};\n");
+                            decls += &format!("  {cty} a{pi} = {{ 0, (void*){fname}, (void*)cbd_{abi}_{n} }};\n");
+                            cb_destroy.push(format!("cb-destroy {abi}.{n}"));
                             cb_lines.push(format!("cb {abi}.{n}:{}", cargs.iter().map(|a| format!(" {}", a.show())).collect::<String>()));
                             rust_line += &format!(" {n}={}", if has_ret { cret.show() } else { "called".to_string() });
                         }
@@ -865,10 +935,16 @@ pub fn c_driver(case: &Case, headers: &BTreeMap<String, String>) -> Result<(Stri
                 exp.push(format!("call {abi} salt={salt}"));
                 for l in cb_lines { exp.push(l); }
                 exp.push(rust_line);
+                // the callback wrappers are dropped when the extern fn returns, later parameters first
+                for l in cb_destroy.iter().rev() { exp.push(l.clone()); }
                 // owned arguments are dropped by Rust at the end of the method — nothing is logged for slices
                 exp.push(format!("c-got {}", sc.ret.show()));
                 if let Some(w) = &write_var {
+                    if let Some(w) = w.strip_prefix('=') {
+                        body += &format!("  printf(\"write=[\"); for (size_t i = 0; i < {w}->len; i++) {{ if (i) printf(\",\"); printf(\"%u\", (unsigned)(uint8_t){w}->buf[i]); }} printf(\"]%s\\n\", {w}->grow_failed ? \" grow_failed\" : \"\");\n");
+                    } else {
                     body += &format!("  printf(\"write=[\"); for (size_t i = 0; i < diplomat_buffer_write_len({w}); i++) {{ if (i) printf(\",\"); printf(\"%u\", (unsigned)(uint8_t)diplomat_buffer_write_get_bytes({w})[i]); }} printf(\"]\\n\"); diplomat_buffer_write_destroy({w});\n");
+                    }
                     exp.push(format!("write=[{}]", sc.written.iter().map(|b| b.to_string()).collect::<Vec<_>>().join(",")));
                 }
                 let d = gs.destroy(&ret_ty, &sc.ret, "r");
@@ -1021,7 +1097,7 @@ pub fn compare(transcript: &[String], exp: &Expected) -> Vec<String> {
     let mut it = transcript.iter();
     let mut c_lay = vec![];
     let mut r_lay = vec![];
-    for l in it.by_ref() { if l == "--" { break; } c_lay.push(l.clone()); }
+    for l in it.by_ref() { if l == "--" { break; } if !l.starts_with("rs ") { c_lay.push(l.clone()); } }
     for l in it.by_ref() { if l == "--" { break; } r_lay.push(l.clone()); }
     c_lay.sort();
     r_lay.sort();
